@@ -8,7 +8,10 @@ PID = "C17"
 def reqs_pool(rnd, n):
     out = []
     hosts = ["10.0.0.%d" % i for i in range(1, 6)]
-    tg = [("domain", "ex.com", 80), ("domain", "a.b", 443), ("ipv4", "10.2.3.4", 443), ("ipv6", "2001:db8::1", 80)]
+    # incl. the same destination text in two internal forms (a host name that happens to be an address literal, as SOCKS5
+    # ATYP=domain or SOCKS4a carry it, next to the address itself): equal keys whatever the form
+    tg = [("domain", "ex.com", 80), ("domain", "a.b", 443), ("ipv4", "10.2.3.4", 443), ("ipv6", "2001:db8::1", 80), ("domain", "10.2.3.4", 443),
+          ("domain", "10.9.9.9", 80), ("ipv4", "10.9.9.9", 80)]
     for i in range(n):
         k, h, p = rnd.choice(tg)
         out.append({"listener": rnd.choice(["l1", "l2"]), "source": "%s:%d" % (rnd.choice(hosts), 1000 + i), "feature": "TcpForward",
@@ -16,7 +19,9 @@ def reqs_pool(rnd, n):
     return out
 
 
-KEYS = {"request.source.host": lambda r: r["source"].rsplit(":", 1)[0],
+KEYS = {"request.target": lambda r: ("[%s]:%d" if r["target"]["kind"] == "ipv6" else "%s:%d") % (r["target"]["host"], r["target"]["port"]),
+        "request.source": lambda r: r["source"],
+        "request.source.host": lambda r: r["source"].rsplit(":", 1)[0],
         "request.target.host": lambda r: r["target"]["host"],
         "request.listener": lambda r: r["listener"],
         "to_string(request.target.port)": lambda r: str(r["target"]["port"])}
